@@ -47,6 +47,7 @@ type tr2 struct {
 	pnames  []string
 	usesFuel bool
 	noResult string // a function without results evaluates to the tuple of what it assigns
+	declPos  map[string]token.Pos
 }
 
 var leanTypeOfKind = map[string]string{"ents": "List Entry", "omap": "List Entry", "int": "Int", "cids": "List Hash",
@@ -545,6 +546,24 @@ func assignedOuter(stmts []ast.Stmt) []string {
 	return out
 }
 
+// ordered: the variables in the order of their declarations in the source (stable under renaming), the
+// receiver's fields last in name order
+func (t *tr2) ordered(vars []string) []string {
+	out := append([]string{}, vars...)
+	sort.SliceStable(out, func(i, j int) bool {
+		pi, oki := t.declPos[out[i]]
+		pj, okj := t.declPos[out[j]]
+		if oki != okj {
+			return oki
+		}
+		if !oki {
+			return out[i] < out[j]
+		}
+		return pi < pj
+	})
+	return out
+}
+
 func tupleOf(vars []string) string {
 	var ns []string
 	for _, v := range vars {
@@ -741,6 +760,15 @@ func (t *tr2) block(stmts []ast.Stmt, fall string, inLoop bool) string {
 		return t.fail(st, "call statement")
 	case *ast.IfStmt:
 		return t.ifStmt(x, rest, fall, inLoop)
+	case *ast.SwitchStmt:
+		// a tagless switch is an if / else-if chain (no fallthrough in the subset)
+		if chain := switchToIf(x); chain != nil {
+			return t.block(append([]ast.Stmt{chain}, rest...), fall, inLoop)
+		}
+		if len(x.Body.List) == 1 && x.Tag == nil && x.Init == nil { // only a default clause
+			return t.block(append(append([]ast.Stmt{}, x.Body.List[0].(*ast.CaseClause).Body...), rest...), fall, inLoop)
+		}
+		return t.fail(st, "switch")
 	case *ast.RangeStmt:
 		return t.rangeStmt(x, rest, fall, inLoop)
 	case *ast.ForStmt:
@@ -938,7 +966,7 @@ func (t *tr2) ifStmt(x *ast.IfStmt, rest []ast.Stmt, fall string, inLoop bool) s
 	}
 	switch {
 	case !hasTerminator(body) && !hasTerminator(els):
-		vars := assignedOuter(append(append([]ast.Stmt{}, body...), els...))
+		vars := t.ordered(assignedOuter(append(append([]ast.Stmt{}, body...), els...)))
 		if len(vars) == 0 {
 			return prefix + t.block(rest, fall, inLoop) + closing
 		}
@@ -959,7 +987,20 @@ func (t *tr2) ifStmt(x *ast.IfStmt, rest []ast.Stmt, fall string, inLoop bool) s
 		t.kinds = saved
 		return prefix + "(if " + c + " then " + th + "\n    else " + t.block(append(append([]ast.Stmt{}, els...), rest...), fall, inLoop) + ")" + closing
 	}
-	return t.fail(x, "if with an exit on some paths only")
+	// exits on some paths only: the continuation is duplicated into both branches, provided no name
+	// declared at the top of a branch is visible to it
+	if len(els) == 0 || !declaresAny(els) {
+		if !declaresAny(body) {
+			saved := t.saveKinds()
+			th := t.block(append(append([]ast.Stmt{}, body...), rest...), fall, inLoop)
+			t.kinds = saved
+			saved = t.saveKinds()
+			el := t.block(append(append([]ast.Stmt{}, els...), rest...), fall, inLoop)
+			t.kinds = saved
+			return prefix + "(if " + c + " then " + th + "\n    else " + el + ")" + closing
+		}
+	}
+	return t.fail(x, "if with an exit on some paths only, and declarations")
 }
 
 // headPattern: `e := xs[0]; xs = xs[1:]` → a match on the list; allowed where the list is known to be
@@ -989,6 +1030,44 @@ func (t *tr2) headPattern(x *ast.AssignStmt, rest []ast.Stmt, fall string, inLoo
 	return "(match " + leanName(xs.Name) + " with\n    | [] => " + t.brk + "\n    | " + leanName(e) + " :: " + leanName(xs.Name) + " =>\n    " + t.block(rest[1:], fall, inLoop) + ")", true
 }
 
+// switchToIf: `switch { case a: A; case b: B; default: D }` as `if a { A } else if b { B } else { D }`
+// (nil when the switch has a tag, an initialiser, a fallthrough, or nothing but a default)
+func switchToIf(x *ast.SwitchStmt) ast.Stmt {
+	if x.Tag != nil || x.Init != nil {
+		return nil
+	}
+	var cases []*ast.CaseClause
+	var def *ast.CaseClause
+	for _, c := range x.Body.List {
+		cc := c.(*ast.CaseClause)
+		for _, st := range cc.Body {
+			if br, ok := st.(*ast.BranchStmt); ok && br.Tok == token.FALLTHROUGH {
+				return nil
+			}
+		}
+		if cc.List == nil {
+			def = cc
+			continue
+		}
+		cases = append(cases, cc)
+	}
+	if len(cases) == 0 {
+		return nil
+	}
+	var tail ast.Stmt
+	if def != nil {
+		tail = &ast.BlockStmt{List: def.Body}
+	}
+	for i := len(cases) - 1; i >= 0; i-- {
+		cond := cases[i].List[0]
+		for _, c := range cases[i].List[1:] {
+			cond = &ast.BinaryExpr{X: cond, Op: token.LOR, Y: c}
+		}
+		tail = &ast.IfStmt{Cond: cond, Body: &ast.BlockStmt{List: cases[i].Body}, Else: tail}
+	}
+	return tail
+}
+
 func (t *tr2) saveKinds() map[string]string {
 	m := map[string]string{}
 	for k, v := range t.kinds {
@@ -1001,7 +1080,7 @@ func (t *tr2) loop(list string, elemName, elemKind string, body []ast.Stmt, rest
 	if hasReturn(body) {
 		return t.fail(&ast.BlockStmt{List: body}, "return inside a loop")
 	}
-	vars := assignedOuter(body)
+	vars := t.ordered(assignedOuter(body))
 	if len(vars) == 0 {
 		return t.block(rest, fall, inLoop)
 	}
@@ -1011,6 +1090,20 @@ func (t *tr2) loop(list string, elemName, elemKind string, body []ast.Stmt, rest
 	b := t.block(body, tup, true)
 	t.kinds = saved
 	return "(let " + tup + " := (" + list + ").foldl (fun " + tup + " " + leanName(elemName) + " =>\n    " + b + ") " + tup + ";\n    " + t.block(rest, fall, inLoop) + ")"
+}
+
+func declaresAny(stmts []ast.Stmt) bool {
+	for _, s := range stmts {
+		switch x := s.(type) {
+		case *ast.AssignStmt:
+			if x.Tok == token.DEFINE {
+				return true
+			}
+		case *ast.DeclStmt:
+			return true
+		}
+	}
+	return false
 }
 
 func hasReturn(stmts []ast.Stmt) bool {
@@ -1124,7 +1217,7 @@ func (t *tr2) whileStmt(x *ast.ForStmt, rest []ast.Stmt, fall string, inLoop boo
 	if hasReturn(x.Body.List) {
 		return t.fail(x, "return inside a loop")
 	}
-	vars := assignedOuter(x.Body.List)
+	vars := t.ordered(assignedOuter(x.Body.List))
 	if len(vars) == 0 {
 		return t.fail(x, "for-cond loop that assigns nothing")
 	}
@@ -1229,6 +1322,38 @@ func usesSlicing(fd *ast.FuncDecl) bool {
 
 func (t *tr2) funcDecl(fd *ast.FuncDecl, name string) string {
 	uniquifyIfInits(fd)
+	t.declPos = map[string]token.Pos{}
+	note := func(id *ast.Ident) {
+		if _, ok := t.declPos[id.Name]; !ok && id.Name != "_" {
+			t.declPos[id.Name] = id.Pos()
+		}
+	}
+	for _, f := range fd.Type.Params.List {
+		for _, n := range f.Names {
+			note(n)
+		}
+	}
+	ast.Inspect(fd.Body, func(n ast.Node) bool {
+		switch x := n.(type) {
+		case *ast.AssignStmt:
+			if x.Tok == token.DEFINE {
+				for _, l := range x.Lhs {
+					if id, ok := l.(*ast.Ident); ok {
+						note(id)
+					}
+				}
+			}
+		case *ast.ValueSpec:
+			for _, id := range x.Names {
+				note(id)
+			}
+		case *ast.RangeStmt:
+			if id, ok := x.Value.(*ast.Ident); ok {
+				note(id)
+			}
+		}
+		return true
+	})
 	t.kinds = map[string]string{}
 	t.subst = map[string]string{}
 	t.loops = nil
@@ -1301,7 +1426,7 @@ func (t *tr2) funcDecl(fd *ast.FuncDecl, name string) string {
 	}
 	if fd.Type.Results == nil || len(fd.Type.Results.List) == 0 {
 		// no result: the function is what it does to the variables it assigns
-		vars := assignedOuter(fd.Body.List)
+		vars := t.ordered(assignedOuter(fd.Body.List))
 		var tys []string
 		for _, v := range vars {
 			tys = append(tys, leanTypeOfKind[t.kinds[v]])
@@ -1343,51 +1468,62 @@ func findMethod(f *ast.File, name string) *ast.FuncDecl {
 	return nil
 }
 
-func renderSlices(repo string) string {
-	t := &tr2{fset: token.NewFileSet()}
-	var b strings.Builder
-	b.WriteString("import Model.GoPrelude\nimport Generated.Sorting\n/-! GENERATED by harness/cmd/extract/translate2.go from log_io.go, log.go, entry/utils.go and entry/entry.go —\n    do not edit.  What the slice and map helpers of the library say, as Lean definitions. -/\nnamespace Generated.Go\nopen Model Model.Go\n\n")
+// renderSlices: one generated file per group of functions (a function that leaves the subset then breaks
+// only the obligations of the properties that rest on its group)
+func renderSlices(repo string) map[string]string {
 	type job struct {
 		file  string
 		names []string
 	}
-	for _, j := range []job{
-		{"log.go", []string{"maxClockTimeForEntries", "traverse", "difference"}},
-		{"log_io.go", []string{"entryLastN", "entryLastNKeeping", "entrySliceRange"}},
-		{"entry/utils.go", []string{"Difference", "FindHeads"}},
-		{"entry/entry.go", []string{"uniqueCIDs"}},
-		{"entry/fetcher.go", []string{"updateClock", "addNextEntry"}},
-	} {
-		f, err := parser.ParseFile(t.fset, filepath.Join(repo, j.file), nil, parser.SkipObjectResolution)
-		if err != nil {
-			t.errs = append(t.errs, err.Error())
-			continue
-		}
-		for _, n := range j.names {
-			fd := findFunc(f, n)
-			if fd == nil {
-				fd = findMethod(f, n)
-			}
-			if fd == nil || fd.Body == nil {
-				t.errs = append(t.errs, "function "+n+" not found in "+j.file)
+	groups := []struct {
+		name string
+		jobs []job
+	}{
+		{"Misc", []job{{"log.go", []string{"maxClockTimeForEntries"}}, {"entry/entry.go", []string{"uniqueCIDs"}}}},
+		{"Loaders", []job{{"log_io.go", []string{"entryLastN", "entryLastNKeeping", "entrySliceRange"}}, {"entry/utils.go", []string{"Difference"}}}},
+		{"Heads", []job{{"entry/utils.go", []string{"FindHeads"}}}},
+		{"Traverse", []job{{"log.go", []string{"traverse"}}}},
+		{"Join", []job{{"log.go", []string{"difference"}}}},
+		{"Fetcher", []job{{"entry/fetcher.go", []string{"updateClock", "addNextEntry"}}}},
+	}
+	out := map[string]string{}
+	for _, g := range groups {
+		t := &tr2{fset: token.NewFileSet()}
+		var b strings.Builder
+		b.WriteString("import Model.GoPrelude\nimport Generated.Sorting\n/-! GENERATED by harness/cmd/extract/translate2.go from the Go source — do not edit.\n    What the code says, as Lean definitions (group " + g.name + "). -/\nnamespace Generated.Go\nopen Model Model.Go\n\n")
+		for _, j := range g.jobs {
+			f, err := parser.ParseFile(t.fset, filepath.Join(repo, j.file), nil, parser.SkipObjectResolution)
+			if err != nil {
+				t.errs = append(t.errs, err.Error())
 				continue
 			}
-			name := lowerFirst(n)
-			switch j.file + ":" + n {
-			case "entry/utils.go:Difference":
-				name = "entryDifference"
-			case "log.go:difference":
-				name = "logDifference"
+			for _, n := range j.names {
+				fd := findFunc(f, n)
+				if fd == nil {
+					fd = findMethod(f, n)
+				}
+				if fd == nil || fd.Body == nil {
+					t.errs = append(t.errs, "function "+n+" not found in "+j.file)
+					continue
+				}
+				name := lowerFirst(n)
+				switch j.file + ":" + n {
+				case "entry/utils.go:Difference":
+					name = "entryDifference"
+				case "log.go:difference":
+					name = "logDifference"
+				}
+				fmt.Fprintf(&b, "/-- `%s` (%s) -/\n%s\n", n, j.file, t.funcDecl(fd, name))
 			}
-			fmt.Fprintf(&b, "/-- `%s` (%s) -/\n%s\n", n, j.file, t.funcDecl(fd, name))
 		}
+		for _, e := range t.errs {
+			fmt.Fprintf(&b, "-- UNTRANSLATABLE: %s\n", e)
+		}
+		if len(t.errs) > 0 {
+			b.WriteString("\n/-- the translation failed (see above): this definition does not elaborate -/\ndef translationFailed" + g.name + " : Nat := (untranslatable : Nat)\n")
+		}
+		b.WriteString("\nend Generated.Go\n")
+		out["Gen"+g.name+".lean"] = b.String()
 	}
-	for _, e := range t.errs {
-		fmt.Fprintf(&b, "-- UNTRANSLATABLE: %s\n", e)
-	}
-	if len(t.errs) > 0 {
-		b.WriteString("\n/-- the translation failed (see above): this definition does not elaborate -/\ndef slicesTranslationFailed : Nat := (untranslatable : Nat)\n")
-	}
-	b.WriteString("\nend Generated.Go\n")
-	return b.String()
+	return out
 }
